@@ -714,3 +714,61 @@ def rule_inline_eol(ctx: RuleContext, p: Program, rid: str) -> None:
                   f'every text the model prints is rejected when parsed as that model', c.where, note=f'INLINE={iv}')
     if n < 30:
         raise AnalysisError(f'{rid}: only {n} tree models with a grammar rule')
+
+
+# ====================================================================== GRAM-CHAIN (C13, added in round 7)
+def rule_gram_chain(ctx: RuleContext, p: Program, rid: str) -> None:
+    ctx.rule(rid, 'operator chains are flat in the grammar: the rule of a binary level (the model classes whose from_parsed_children takes the '
+                  'children as operand, operator, operand, ...) never has itself -- or a lower level -- as a direct child (computed over the '
+                  'compiled grammar with helper, inlined and ?-rules expanded).  The value getters fold the operand list from the left, which '
+                  'is the usual associativity only if `a / b / c` arrives as one list of three operands; a right-recursive rule delivers '
+                  '(a, (b, c)) and 8/4/2 evaluates to 4')
+    g = grammar(p)
+    by: dict[str, list] = {}
+    for r in g.rules:
+        by.setdefault(str(r.origin.name), []).append(r)
+    terms = set(g.terminals) | set(g.declared)
+
+    def inlined(name: str) -> bool:
+        if name.startswith('_'):
+            return True
+        rs = by.get(name, [])
+        return bool(rs) and all(getattr(r.options, 'expand1', False) for r in rs)
+
+    def direct(name: str, seen: frozenset = frozenset()) -> set[str]:
+        out: set[str] = set()
+        for r in by.get(name, []):
+            for x in r.expansion:
+                nm = str(x.name)
+                if nm in terms:
+                    out.add(nm)
+                elif inlined(nm):
+                    if nm not in seen:
+                        kids = direct(nm, seen | {nm})
+                        # a ?-rule with a single child vanishes, with several it stays: both are possible children
+                        out |= kids
+                        if not nm.startswith('_'):
+                            out.add(nm)
+                else:
+                    out.add(nm)
+        return out
+
+    chains = []
+    for c in p.registered('tree_model'):
+        fpc = c.attrs.get('from_parsed_children')
+        rule = p.class_const(c, 'RULE')
+        if isinstance(fpc, FuncInfo) and isinstance(rule, ast.Constant) and fpc.node.args.vararg is not None \
+                and any(isinstance(x, ast.Slice) and x.step is not None for x in ast.walk(fpc.node)):
+            chains.append((c, rule.value))
+    if len(chains) < 2:
+        raise AnalysisError(f'{rid}: only {len(chains)} operator-chain models found (NumberAddExpr and NumberMulExpr confirmed)')
+    level = {rn: i for i, (_, rn) in enumerate(sorted(chains, key=lambda t: 0 if 'add' in t[1] else 1))}
+    for c, rn in chains:
+        if rn not in by:
+            raise AnalysisError(f'{rid}: rule {rn} is not in the grammar')
+        kids = direct(rn)
+        bad = sorted(k for k in kids if k in level and level[k] <= level[rn])
+        ctx.check(not bad, rid, f'beancount.lark:{rn}', 'flat chain',
+                  f'rule `{rn}` can have {bad} as a direct child: the chain is nested instead of flat, so {c.name}.value, which folds its operands '
+                  f'from the left, evaluates `a / b / c` as a / (b / c) (8/4/2 gives 4) although it prints and re-parses unchanged',
+                  'autobean_refactor/beancount.lark', note=f'direct children {sorted(kids)[:6]}')
